@@ -37,11 +37,22 @@ def capture_cex():
             rec["cex"].append((self.is_probe, ex, so))
         return orig_cb(self, future, ex=ex, path_ctx=path_ctx, description=description)
 
+    orig_hv = H.handle_assertion_violation
+
+    def handle(self, path_id, ex, panic_found, description=None):
+        # every potential violation handed to the solver, recorded synchronously (the callback above is asynchronous)
+        with lock:
+            rec["submitted"].append((self.is_probe, ex))
+        return orig_hv(self, path_id=path_id, ex=ex, panic_found=panic_found, description=description)
+
+    rec["submitted"] = []
     H._solve_end_to_end_callback = callback
+    H.handle_assertion_violation = handle
     try:
         yield rec
     finally:
         H._solve_end_to_end_callback = orig_cb
+        H.handle_assertion_violation = orig_hv
 
 
 GETTER_SELECTORS = {selector(g) for g in invgen.GETTERS}
@@ -222,6 +233,8 @@ def run(chk: Check, tier: str):
         machines.append(invgen.same_block_machine())
         machines.append(invgen.later_block_machine())
         machines.append(invgen.merge_machine())
+        machines.append(invgen.refuted_probe_machine(True))
+        machines.append(invgen.refuted_probe_machine(False))
         late = len(machines)
         machines.append(invgen.late_machine())
         cases = [invgen.frontier_case(i, m, first_at_setup=(i != late)) for i, m in enumerate(machines)]
@@ -307,6 +320,20 @@ def run(chk: Check, tier: str):
                 # printed at best (asynchronously, by a solver callback nobody waits for) - never part of the verdict (recorded finding)
                 chk.count("probe_printed" if "Assertion failure detected" in text else "probe_not_even_printed")
                 chk.violation("probe-failure-not-in-verdict", f"an assertion inside a target function fails ({m.meta['functions']}): halmos reports invariant_machine() as PASS", info)
+                # ... but it has to be checked: some potential violation inside a target that was handed to the solver is satisfiable
+                verdicts = []
+                for is_probe, pex in rec["submitted"]:
+                    if is_probe:
+                        sol = z3.Solver()
+                        sol.set(timeout=10000)
+                        sol.add(*list(pex.path.conditions))
+                        verdicts.append(str(sol.check()))
+                chk.count("probe_submissions_examined", len(verdicts))
+                if "sat" not in verdicts and "unknown" not in verdicts:
+                    d = dict(info)
+                    d["potential_violations_submitted"] = verdicts
+                    chk.violation(f"probe-not-checked:{key}", f"an assertion inside a target function fails within depth {m.depth} on the reference machine ({len(spec_probe['seq'])} call(s)), "
+                                  f"but no satisfiable assertion failure of a target was ever handed to the solver (submitted: {verdicts or 'none'}): assertions in targets are not checked after every explored call", d)
             if spec_break is None and r.exitcode == 1:
                 # a FAIL without a reference break is only wrong if halmos marks the counterexample valid: replayed below
                 chk.count("fail_without_reference_break")
